@@ -91,8 +91,12 @@ def main():
             return ok
 
         try:
-            with trace_calls(logger, spec.get("k", 0), flt, None):
+            with trace_calls(logger, spec.get("k", 0), flt, spec.get("sample_rate")):
                 body()
+                if spec.get("program_sets_profile"):
+                    # the traced program uses sys.setprofile itself and leaves it different from the tracer
+                    sys.setprofile(lambda frame, event, arg: None)
+                    sys.setprofile(None)
                 if spec.get("exit") == "exception":
                     raise BlockExit()
         except BlockExit:
